@@ -703,7 +703,8 @@ impl<'a> Engine<'a> {
                     self.h.viol("C09", "clone-diverges", format!("Set::iter: a clone taken after {} of {} items yields {} more", j, len, a.len()));
                 }
                 // clone_from: an iterator at ANOTHER position, overwritten in place, continues like its source
-                let adv = (j * 7 + len + 1) % (len + 1);
+                let adv = (j + 1 + (j * 5) % len.max(1)) % (len + 1); // a different position whenever len > 0 allows
+                        let adv = if adv == j { (j + 1) % (len + 1) } else { adv };
                 let mut c = m.iter();
                 for _ in 0..adv {
                     c.next();
